@@ -196,6 +196,85 @@ fn name_valid_by_property(name: &str) -> Result<(), &'static str> {
     Ok(())
 }
 
+fn long_lengths(tier: Tier) -> Vec<usize> {
+    let mut v = vec![31, 32, 33, 63, 64, 65, 100, 127, 128, 129, 130, 200, 255, 256, 257, 511, 512, 513, 1000, 1023, 1024, 1025, 4095, 4096, 4097, 5000];
+    if tier == Tier::Thorough {
+        v.extend([8191, 8192, 8193, 16384, 65535, 65536, 65537, 70000, 1 << 20]);
+    }
+    v
+}
+
+/// Names and arguments handed over in a *reused buffer* (same address, same length, other content), as a
+/// line-oriented application does: the verdict on each must be the verdict it gets on its own.
+fn check_buffer_reuse(tier: Tier, acc: &mut Acc) {
+    let mut names = strings_over(NAME_SIGMA, 2);
+    names.extend(keyword_neighbours().into_iter().filter(|n| n.len() <= 24).take(tier.pick(60, 400)));
+    names.extend(["status", "st\ntus", "sta us", "play", "pl\0y", "command_list_end", "command_lisp_end", "command_list_enD"].map(String::from));
+    // each name on its own: a separate allocation per name (kept alive, so no two share an address)
+    let copies: Vec<String> = names.to_vec();
+    let fresh: Vec<bool> = copies.iter().map(|n| catch(|| Command::build(n.as_str()).is_ok()).unwrap_or(false)).collect();
+    let mut buf = String::with_capacity(64);
+    for (i, a) in names.iter().enumerate() {
+        for (j, b) in names.iter().enumerate() {
+            if i == j || a.len() != b.len() && (i + j) % 7 != 0 {
+                continue; // every same-length pair, one in seven of the others
+            }
+            acc.evaluations += 1;
+            acc.transitions += 2;
+            acc.nontrivial += 1;
+            buf.clear();
+            buf.push_str(a);
+            let first = catch(|| Command::build(buf.as_str()).is_ok()).unwrap_or(false);
+            buf.clear();
+            buf.push_str(b);
+            let second = catch(|| Command::build(buf.as_str()).is_ok()).unwrap_or(false);
+            for (n, accepted) in [(a, first), (b, second)] {
+                if let (Err(why), true) = (name_valid_by_property(n), accepted) {
+                    acc.viol.push(Violation::new(
+                        format!("C07/bad-name-accepted-{why}"),
+                        format!("Command::build accepts the name {:?} ({why}) when it is handed over in a buffer that held {:?} before", show_bytes(n.as_bytes()), show_bytes(a.as_bytes())),
+                        json!({"kind": "name-reuse", "first_hex": hex(a.as_bytes()), "second_hex": hex(b.as_bytes())}),
+                    ));
+                }
+            }
+            if first != fresh[i] || second != fresh[j] {
+                acc.viol.push(Violation::new(
+                    "C07/name-verdict-history-dependent",
+                    format!("build({:?}) then build({:?}) through one reused buffer gives accepted = {first}, {second}; each on its own gives {}, {}", show_bytes(a.as_bytes()), show_bytes(b.as_bytes()), fresh[i], fresh[j]),
+                    json!({"kind": "name-reuse", "first_hex": hex(a.as_bytes()), "second_hex": hex(b.as_bytes())}),
+                ));
+            }
+        }
+    }
+    let args = strings_over(SIGMA, 2);
+    let fresh: Vec<bool> = args.iter().map(|a| ArgVal::String(a.clone()).apply(&mut bases().swap_remove(0))).collect();
+    for (i, a) in args.iter().enumerate() {
+        for (j, b) in args.iter().enumerate() {
+            if i == j || a.len() != b.len() {
+                continue;
+            }
+            acc.evaluations += 1;
+            acc.transitions += 2;
+            acc.nontrivial += 1;
+            buf.clear();
+            buf.push_str(a);
+            let mut cmd = bases().swap_remove(0);
+            let first = catch(|| cmd.add_argument(buf.as_str()).is_ok()).unwrap_or(false);
+            buf.clear();
+            buf.push_str(b);
+            let mut cmd2 = bases().swap_remove(0);
+            let second = catch(|| cmd2.add_argument(buf.as_str()).is_ok()).unwrap_or(false);
+            if first != fresh[i] || second != fresh[j] {
+                acc.viol.push(Violation::new(
+                    "C07/argument-verdict-history-dependent",
+                    format!("add_argument({:?}) then add_argument({:?}) through one reused buffer gives accepted = {first}, {second}; each on its own gives {}, {}", show_bytes(a.as_bytes()), show_bytes(b.as_bytes()), fresh[i], fresh[j]),
+                    json!({"kind": "arg-reuse", "first_hex": hex(a.as_bytes()), "second_hex": hex(b.as_bytes())}),
+                ));
+            }
+        }
+    }
+}
+
 fn single_line(w: &[u8]) -> bool {
     w.last() == Some(&b'\n') && w.iter().filter(|&&b| b == b'\n').count() == 1
 }
@@ -448,6 +527,27 @@ pub fn run(tier: Tier) -> i32 {
     for b in bytes_over(&[b'a', b'\n', b'\r', 0xff, b' ', b'"'], tier.pick(4, 7)) {
         vals.push(ArgVal::Raw(b));
     }
+    // long values (round 6: an error path that clips what it keeps of a rejected argument): lengths
+    // around powers of two and buffer sizes, a forbidden byte at the edges and in the middle
+    for len in long_lengths(tier) {
+        for fill in ["a", " ", "\"", "\u{e9}"] {
+            let body: String = fill.repeat(len / fill.len());
+            let n = body.chars().count();
+            vals.push(ArgVal::Str(body.clone()));
+            for bad in ['\n', '\0'] {
+                for at in [0, 1, n / 2, n.saturating_sub(2), n.saturating_sub(1), n] {
+                    let mut t: String = body.chars().take(at).collect();
+                    t.push(bad);
+                    t.extend(body.chars().skip(at));
+                    vals.push(ArgVal::Str(t.clone()));
+                    vals.push(ArgVal::String(t.clone()));
+                    if fill == "a" {
+                        vals.push(ArgVal::Raw(t.into_bytes()));
+                    }
+                }
+            }
+        }
+    }
     let acc_args = vals
         .par_chunks(512)
         .map(|chunk| {
@@ -489,6 +589,7 @@ pub fn run(tier: Tier) -> i32 {
         .reduce(Acc::default, Acc::merge);
 
     let mut acc = acc_names.merge(acc_args).merge(acc_seq);
+    check_buffer_reuse(tier, &mut acc);
     for p in PANICS.lock().unwrap().drain(..).take(50) {
         acc.viol.push(Violation::new("C07/panic", format!("the command builder panicked on an argument: {p}"), json!({"kind": "panic", "what": p})));
     }
@@ -499,7 +600,7 @@ pub fn run(tier: Tier) -> i32 {
     cov.evaluations = acc.evaluations;
     cov.distinct_nontrivial = acc.nontrivial;
     cov.rule = format!(
-        "names: every string of length <= {} over 22 class representatives (incl. 8 non-ASCII numeric / letter-like / space characters) plus every string within edit distance 1 of / prefix / extension of the three list keywords ({} names); arguments: every string of length <= {} over 12 classes through &str/String/Cow borrowed and owned/&String, integer/bool/Duration values, user-defined renderers for every byte string of length <= {} over {{a, LF, CR, 0xFF, space, quote}} ({} values x 2 base commands); sequences: every sequence of <= {} add_argument calls over a menu of 12 values (accepted, rejected, empty / blank-terminated renderings, a line feed as first byte, a hand-built tag) ({} sequences); non-trivial = invalid names, values containing LF or rendered by a user-defined renderer, sequences containing a rejected call",
+        "names: every string of length <= {} over 22 class representatives (incl. 8 non-ASCII numeric / letter-like / space characters) plus every string within edit distance 1 of / prefix / extension of the three list keywords ({} names); arguments: every string of length <= {} over 12 classes through &str/String/Cow borrowed and owned/&String, integer/bool/Duration values, user-defined renderers for every byte string of length <= {} over {{a, LF, CR, 0xFF, space, quote}} ({} values x 2 base commands); sequences: every sequence of <= {} add_argument calls over a menu of 12 values (accepted, rejected, empty / blank-terminated renderings, a line feed as first byte, a hand-built tag) ({} sequences); non-trivial = invalid names, values containing LF or rendered by a user-defined renderer, sequences containing a rejected call; plus values of 31..5000 (thorough: ..2^20) bytes over 4 fills with LF / NUL at 6 positions, and ordered pairs of names / arguments handed over in one reused buffer",
         tier.pick(3, 5),
         names.len(),
         tier.pick(4, 6),
@@ -543,6 +644,32 @@ pub fn replay(case: &Value) -> i32 {
             let seq: Vec<usize> = case["seq"].as_array().map(|a| a.iter().filter_map(|x| x.as_u64().map(|v| (v as usize).min(seq_menu().len() - 1))).collect()).unwrap_or_default();
             println!("replay C07: add_argument sequence {seq:?}");
             check_sequence(&seq, &mut acc, true);
+        }
+        Some(k @ ("name-reuse" | "arg-reuse")) => {
+            let a = String::from_utf8_lossy(&unhex(case["first_hex"].as_str().unwrap_or(""))).into_owned();
+            let b = String::from_utf8_lossy(&unhex(case["second_hex"].as_str().unwrap_or(""))).into_owned();
+            let verdict = |s: &str| -> bool {
+                if k == "name-reuse" {
+                    catch(|| Command::build(s).is_ok()).unwrap_or(false)
+                } else {
+                    let mut c = bases().swap_remove(0);
+                    catch(|| c.add_argument(s).is_ok()).unwrap_or(false)
+                }
+            };
+            let (fa, fb) = (verdict(&a.clone()), verdict(&b.clone()));
+            let mut buf = String::with_capacity(64);
+            buf.push_str(&a);
+            let first = verdict(buf.as_str());
+            buf.clear();
+            buf.push_str(&b);
+            let second = verdict(buf.as_str());
+            println!("replay C07 ({k}): {:?} then {:?} through one reused buffer: accepted = {first}, {second}; each on its own: {fa}, {fb}", show_bytes(a.as_bytes()), show_bytes(b.as_bytes()));
+            if k == "name-reuse" && (first && name_valid_by_property(&a).is_err() || second && name_valid_by_property(&b).is_err()) {
+                acc.viol.push(Violation::new("C07/bad-name-accepted-via-reused-buffer", "a name outside the command-word alphabet is accepted".to_string(), case.clone()));
+            }
+            if first != fa || second != fb {
+                acc.viol.push(Violation::new(if k == "name-reuse" { "C07/name-verdict-history-dependent" } else { "C07/argument-verdict-history-dependent" }, "the verdict depends on what the buffer held before".to_string(), case.clone()));
+            }
         }
         _ => return 2,
     }
